@@ -269,6 +269,46 @@ fn native_spec() {
                 println!("SPEC-REPLAY MISMATCH target=unique_prefix case={argv:?}: resolved to {got:?}, expected {want:?} (None = rejected as ambiguous/unknown)");
             }
         }
+    } else if target == "react_actions" {
+        // C07: occurrences combine by action
+        let mk = |over: bool| {
+            Command::new("p")
+                .args_override_self(over)
+                .arg(Arg::new("set").long("set").action(ArgAction::Set))
+                .arg(Arg::new("app").long("app").action(ArgAction::Append))
+                .arg(Arg::new("t").long("t").action(ArgAction::SetTrue))
+                .arg(Arg::new("f").long("f").action(ArgAction::SetFalse))
+                .arg(Arg::new("c").short('c').action(ArgAction::Count))
+        };
+        for over in [false, true] {
+            let r = mk(over).try_get_matches_from(["p", "--set", "1", "--set", "2"]);
+            match (&r, over) {
+                (Ok(m), true) if m.get_one::<String>("set").map(|s| s.as_str()) == Some("2") => {}
+                (Err(e), false) if e.kind() == ErrorKind::ArgumentConflict => {}
+                _ => println!("SPEC-REPLAY MISMATCH target=react_actions case=--set 1 --set 2 args_override_self={over}: {:?}", r.as_ref().map(|m| m.get_one::<String>("set").cloned()).map_err(|e| e.kind())),
+            }
+            let r = mk(over).try_get_matches_from(["p", "--t", "--t"]);
+            if r.is_ok() != over {
+                println!("SPEC-REPLAY MISMATCH target=react_actions case=--t --t args_override_self={over}: accepted={}", r.is_ok());
+            }
+        }
+        let m = mk(false).try_get_matches_from(["p", "--app", "a", "--t", "--app", "b", "--f", "--app", "c"]).unwrap();
+        let app: Vec<String> = m.get_many::<String>("app").unwrap().cloned().collect();
+        if app != ["a", "b", "c"] || !m.get_flag("t") || m.get_flag("f") {
+            println!("SPEC-REPLAY MISMATCH target=react_actions case=append/set-true/set-false: app={app:?} t={} f={}", m.get_flag("t"), m.get_flag("f"));
+        }
+        let m0 = mk(false).try_get_matches_from(["p"]).unwrap();
+        if m0.get_flag("t") || !m0.get_flag("f") || m0.get_count("c") != 0 {
+            println!("SPEC-REPLAY MISMATCH target=react_actions case=absent flags: t={} f={} c={}", m0.get_flag("t"), m0.get_flag("f"), m0.get_count("c"));
+        }
+        for n in [1usize, 2, 254, 255, 256, 300] {
+            let mut argv = vec!["p".to_string()];
+            argv.extend(std::iter::repeat("-c".to_string()).take(n));
+            let got = mk(false).try_get_matches_from(argv).map(|m| m.get_count("c"));
+            if got.as_ref().ok().copied() != Some(n.min(255) as u8) {
+                println!("SPEC-REPLAY MISMATCH target=react_actions case={n} x -c: count {:?}, expected {}", got.map_err(|e| e.kind()), n.min(255));
+            }
+        }
     } else if target == "match_arg_error" {
         // C10: the error kind names a rule the input really breaks
         for acws in [false, true] {
